@@ -14,6 +14,8 @@ import glob, hashlib, json, os, re, shutil, subprocess, sys, tempfile, time
 VERIF = os.path.dirname(os.path.dirname(os.path.abspath(__file__)))
 REPO = os.environ.get("VERIF_REPO", "/repo")
 SYMGO = os.path.join(VERIF, "engine", "symgo")
+# trial runs against a scratch tree (seeded changes) must not overwrite the registered evidence
+OUT = VERIF if REPO == "/repo" else os.path.join(os.environ.get("VERIF_SCRATCH", "/var/tmp"), "vf-trial-out")
 GOENV = dict(os.environ, GOFLAGS="-mod=mod", GOPROXY="off", GOSUMDB="off", GOTOOLCHAIN="local")
 sys.path.insert(0, os.path.join(VERIF, "checks"))
 from plan import PLAN  # noqa: E402
@@ -299,7 +301,7 @@ def check(prop, tier, seed, cfg, work, t0):
                 ok = False
                 for n, v in enumerate(vs[:3]):
                     h = hashlib.sha1(json.dumps([tname, sig, n]).encode()).hexdigest()[:10]
-                    dest = os.path.join(VERIF, "replays", prop, h)
+                    dest = os.path.join(OUT, "replays", prop, h)
                     shutil.rmtree(dest, ignore_errors=True)
                     rep, out = replay(prop, cfg, ov, names, v, params, repo if tname == "working-tree" else repo, dest)
                     if rep:
@@ -353,8 +355,8 @@ def check(prop, tier, seed, cfg, work, t0):
         "wall_s": round(wall, 2),
         "violations": len(confirmed),
     }
-    os.makedirs(os.path.join(VERIF, "evidence"), exist_ok=True)
-    json.dump(ev, open(os.path.join(VERIF, "evidence", prop + ".json"), "w"), indent=1)
+    os.makedirs(os.path.join(OUT, "evidence"), exist_ok=True)
+    json.dump(ev, open(os.path.join(OUT, "evidence", prop + ".json"), "w"), indent=1)
     # ---- report
     for what, n in sorted(known_hits.items()):
         log("KNOWN-FINDING: property=%s %s (%d counterexample paths)" % (prop, what, n))
